@@ -436,7 +436,9 @@ func c02Provenance(c *Ctx, F *model.Fields) {
 
 var dataSeg = regexp.MustCompile(`^data-`)
 
-func c02DataAttr(c *Ctx) {
+// c02DataAttr computes the language isDataAttribute accepts and compares it with the documented data-* form: ⊆ for C02.R6;
+// with lowerRule set, also ⊇ under that rule id (C07: every documented data-* name passes).
+func c02DataAttr(c *Ctx, lowerRule ...string) {
 	R := c.R
 	fn := c.P.Func(load.ModPath, "isDataAttribute")
 	if fn == nil || len(fn.Params) != 1 {
@@ -462,6 +464,7 @@ func c02DataAttr(c *Ctx) {
 	b := relang.NewBuilder()
 	b.AddString("data-xmlAZ;az09")
 	b.AddPattern(`^data-[^A-Z;]+$`)
+	b.AddPattern(`^[^\s]*$`)
 	used := map[int]bool{}
 	F.Atoms(used)
 	type reTest struct {
@@ -662,6 +665,16 @@ func c02DataAttr(c *Ctx) {
 	o := R.Check(ok, "C02.R6", "language", "isDataAttribute: accepted key language", pos, "⊆ data-<non-empty, no upper case, no ';', not xml…>", "accepts a key outside the documented data-* form")
 	if !ok {
 		o.Witness = w
+	}
+	if len(lowerRule) > 0 {
+		// names as the tokenizer delivers them: no white space (Go's `.` does not match a newline, which no attribute name
+		// can contain anyway)
+		docNames := relang.Inter(doc, relang.MustRegexp(`^[^\s]*$`, a))
+		ok2, w2 := relang.Subset(docNames, acc)
+		o2 := R.Check(ok2, lowerRule[0], "language", "isDataAttribute: accepted key language", pos, "⊇ data-<non-empty, no upper case, no ';', not xml…>", "rejects a key of the documented data-* form: with AllowDataAttributes() a conforming document loses the attribute")
+		if !ok2 {
+			o2.Witness = w2
+		}
 	}
 	R.Analysed["isDataAttribute"] = map[string]any{"regexp_tests": len(tests), "condition": stripIDs(A.Str(F)), "accepted_language_states": acc.N()}
 }
